@@ -72,8 +72,9 @@ def scenario(ctx):
     if tie_free:
         require(g.ci == model.centers, 'not_greedy_sequence', lambda: 'centres %s, the unique greedy sequence is %s' %
                 (g.ci, model.centers))
-        # shortcut on/off
-        if form == 'function':
+        # shortcut on/off: identical results are demanded when, in addition, no frame is (nearly) equidistant to a
+        # new centre and its current one - there rounding may legitimately decide differently in the two variants
+        if form == 'function' and model.assign_margin > P.tie_tol():
             g2 = run(dict(spec, tri=not tri), suffix='2')
             require(g2.ci == g.ci and np.array_equal(g2.labels, g.labels) and np.array_equal(g2.distances, g.distances),
                     'triangle_shortcut_differs', lambda: 'with shortcut=%s centres %s, with %s centres %s; labels differ at %s, '
